@@ -1,6 +1,360 @@
-"""GIR front-end (g++ GIMPLE CFG dumps) -- thorough tier cross-checks. Filled in later."""
+"""GIR front-end: GCC's own CFG of the real translation units, used by the thorough tier as a CROSS-CHECK of the SRC front-end.
+
+Nothing here executes hgraph: `g++ -O0 -c -o /dev/null -fdump-tree-cfg-blocks-details-lineno=<scratch>` only compiles the TU and
+prints, per function instance, the basic blocks, their successor edges (with the EH flag) and every statement with its
+[file:line:col] tag and its *resolved* callee.  The dump is parsed, reduced to the functions a property's rules looked at, and
+compared with what the SRC parser believed:
+
+  G1  every call the SRC parser saw inside an analysed function exists in the compiler's view of that source extent
+      (otherwise the parser invented or mis-attributed a call);
+  G2  every call to an hgraph function that the compiler placed inside the extent was seen by the SRC parser
+      (otherwise a macro, an implicit conversion or a parser blind spot hides an effect from the rules);
+  G3  every callee the SRC CFG treats as non-throwing (cfg.NOEXCEPT_NAMES) has no EH successor edge in any block of the
+      extent that ends in a call to it (otherwise an exception path is missing from the K2 rules).
+
+Disagreement is an ANALYSIS-ERROR (exit 2): the machinery distrusts itself, never the code.  Scratch lives under $TMPDIR and is
+removed before the check returns.
+"""
 from __future__ import annotations
 
+import os
+import re
+import shutil
+import subprocess
+import tempfile
+from concurrent.futures import ThreadPoolExecutor
+from dataclasses import dataclass, field
+from typing import Dict, List, Optional, Set, Tuple
 
-def thorough_gir(prop, run):
+from .index import AnalysisError
+
+SDK = "/venv/lib/python3.12/site-packages"
+WITNESS_DIR = os.path.join(os.path.dirname(os.path.abspath(__file__)), "witness")
+LOC = re.compile(r"\[(/[^\]:]+):(\d+):(\d+)\] ")
+FUNC = re.compile(r"^;; Function (.*) \((\S+), funcdef_no=")
+BB = re.compile(r"^;;\s+basic block (\d+),")
+SUCC = re.compile(r"^;;\s+(?:succ:\s+)?(\d+)( \([A-Z_,]+\))?")
+
+
+@dataclass
+class GCall:
+    file: str
+    line: int
+    col: int
+    callee: str  # resolved pretty name (no arguments) or '*field' for an indirect call through a loaded field / '*' unknown
+    base: str  # unqualified name
+    block: int
+    eh: bool = False  # the block ending in this call has an EH successor
+
+
+@dataclass
+class GFunc:
+    pretty: str
+    mangled: str
+    calls: List[GCall] = field(default_factory=list)
+    lines: Set[Tuple[str, int]] = field(default_factory=set)
+    blocks: int = 0
+    eh_edges: int = 0
+
+
+def flags(repo: str, gen: str) -> List[str]:
+    return ["-std=c++23", "-O0", "-g0", "-w", "-pthread", "-DHGRAPH_ENABLE_PYTHON_USER_NODES=0", "-DHGRAPH_TIME_ZONE_BACKEND_STD=1",
+            "-DHGRAPH_STATIC_DEFINE", "-DFMT_HEADER_ONLY=1", "-DSPDLOG_FMT_EXTERNAL=1",
+            f"-I{repo}/include", f"-I{repo}/include/third_party", f"-I{repo}/src", f"-I{gen}",
+            "-isystem", f"{SDK}/include", "-isystem", f"{SDK}/pyarrow/include"]
+
+
+def _split_callee(stmt: str) -> Optional[Tuple[str, str]]:
+    """'lhs = callee (args);' -> (callee, args).  The callee/args separator is the first ' (' at angle depth 0."""
+    s = stmt
+    depth = 0
+    i = 0
+    n = len(s)
+    start = 0
+    # optional 'lhs = '
+    m = re.match(r"^[^=(]*? = ", s)
+    if m and "(" not in m.group(0):
+        start = m.end()
+    i = start
+    while i < n - 1:
+        c = s[i]
+        if s.startswith("operator", i):
+            j = i + 8
+            while j < n and s[j] in "<>=!+-*/%&|^~[](),":
+                if s[j] == "(" and not s.startswith("()", j):
+                    break
+                j += 2 if s.startswith("()", j) or s.startswith("[]", j) else 1
+            i = j
+            continue
+        if c == "<":
+            depth += 1
+        elif c == ">":
+            depth = max(0, depth - 1)
+        elif c == " " and s[i + 1] == "(" and depth == 0:
+            return s[start:i], s[i + 2:]
+        i += 1
     return None
+
+
+def _base(callee: str) -> str:
+    c = callee
+    # drop trailing template argument list
+    while c.endswith(">") and "operator" not in c.split("::")[-1]:
+        depth = 0
+        k = len(c) - 1
+        while k >= 0:
+            if c[k] == ">":
+                depth += 1
+            elif c[k] == "<":
+                depth -= 1
+                if depth == 0:
+                    break
+            k -= 1
+        if k <= 0:
+            break
+        c = c[:k].rstrip()
+    # last '::' at depth 0
+    depth = 0
+    last = 0
+    i = 0
+    while i < len(c):
+        ch = c[i]
+        if ch in "<(":
+            depth += 1
+        elif ch in ">)":
+            depth = max(0, depth - 1)
+        elif ch == ":" and c.startswith("::", i) and depth == 0:
+            last = i + 2
+            i += 1
+        i += 1
+    return c[last:]
+
+
+def parse_dump(path: str, want_files: Set[str]) -> List[GFunc]:
+    """Parse a -fdump-tree-cfg-blocks-details-lineno dump; keep only functions with a statement located in want_files."""
+    out: List[GFunc] = []
+    cur: Optional[GFunc] = None
+    block = -1
+    pending: List[GCall] = []  # calls of the current block (EH flag known at the succ line)
+    temps: Dict[str, str] = {}
+    in_succ = False
+    with open(path, errors="replace") as fh:
+        for raw in fh:
+            line = raw.rstrip("\n")
+            m = FUNC.match(line)
+            if m:
+                if cur is not None and cur.lines:
+                    out.append(cur)
+                cur = GFunc(m.group(1), m.group(2))
+                block = -1
+                pending = []
+                temps = {}
+                in_succ = False
+                continue
+            if cur is None:
+                continue
+            if line.startswith(";;"):
+                mb = BB.match(line)
+                if mb and line.startswith(";;   basic block"):
+                    block = int(mb.group(1))
+                    cur.blocks += 1
+                    pending = []
+                    in_succ = False
+                    continue
+                if "succ:" in line:
+                    in_succ = True
+                    if "(EH" in line or ",EH" in line or "EH," in line:
+                        cur.eh_edges += 1
+                        if pending:
+                            pending[-1].eh = True
+                    continue
+                if in_succ and re.match(r"^;;\s+\d+ \(", line):
+                    if "EH" in line:
+                        cur.eh_edges += 1
+                        if pending:
+                            pending[-1].eh = True
+                    continue
+                in_succ = False
+                continue
+            in_succ = False
+            if not line.startswith("  ") or block < 0:
+                continue
+            locs = LOC.findall(line)
+            if not locs:
+                continue
+            f0, l0, c0 = locs[0]
+            stmt = LOC.sub("", line.strip())
+            stmt = re.sub(r";( \[(return slot optimization|tail call|must tail call)\])+$", ";", stmt)
+            for f, l, _ in locs:
+                if f in want_files:
+                    cur.lines.add((f, int(l)))
+            mt = re.match(r"^(_\d+|[A-Za-z_][\w.]*) = (.+);$", stmt)
+            if mt and "(" not in mt.group(2):
+                temps[mt.group(1)] = mt.group(2)
+            if not stmt.endswith(");") or stmt.startswith(("if (", "switch (", "goto ", "return", "//")):
+                continue
+            sp = _split_callee(stmt)
+            if sp is None:
+                continue
+            callee = sp[0].strip()
+            if not callee or callee.startswith(("{", "(")) or " " in callee.split("<")[0] and not callee.startswith("operator"):
+                # e.g. 'x = (T) y' casts or aggregates
+                if not re.match(r"^[\w:~{}<>,*& .()\[\]=!+\-/%|^]+$", callee):
+                    continue
+            if re.fullmatch(r"_\d+|[a-z_]\w*\.\d+", callee) or callee.startswith("OBJ_TYPE_REF"):
+                src = temps.get(callee, "")
+                fm = re.search(r"(?:->|\.)([A-Za-z_]\w*)$", src)
+                callee = "*" + (fm.group(1) if fm else "")
+            elif callee in ("__builtin_unwind_resume", "__builtin_eh_pointer", "__cxa_begin_catch", "__cxa_end_catch", "__cxa_rethrow",
+                            "__cxa_allocate_exception", "__cxa_throw", "__cxa_free_exception", "__builtin_trap", "__cxa_guard_acquire",
+                            "__cxa_guard_release", "__cxa_guard_abort", "__builtin_memcpy", "__builtin_memset", "__builtin_expect"):
+                continue
+            gc = GCall(f0, int(l0), int(c0), callee, _base(callee) if not callee.startswith("*") else callee, block)
+            cur.calls.append(gc)
+            pending.append(gc)
+    if cur is not None and cur.lines:
+        out.append(cur)
+    return out
+
+
+def compile_dump(repo: str, tu: str, scratch: str, gen: str, extra: Tuple[str, ...] = ()) -> str:
+    out = os.path.join(scratch, re.sub(r"[^A-Za-z0-9]", "_", tu) + ".cfg")
+    cmd = ["g++", *flags(repo, gen), *extra, "-c", "-o", "/dev/null", f"-fdump-tree-cfg-blocks-details-lineno={out}", tu if os.path.isabs(tu) else os.path.join(repo, tu)]
+    r = subprocess.run(cmd, capture_output=True, text=True)
+    if r.returncode != 0 or not os.path.exists(out):
+        first = "\n".join(r.stderr.splitlines()[:6])
+        raise AnalysisError("compile-failed", f"{tu}: {first}")
+    return out
+
+
+def make_gen(scratch: str) -> str:
+    gen = os.path.join(scratch, "gen")
+    os.makedirs(os.path.join(gen, "hgraph"), exist_ok=True)
+    src = os.path.join(SDK, "include", "hgraph", "version.h")
+    if not os.path.exists(src):
+        raise AnalysisError("compile-failed", "hgraph/version.h not found in the SDK include directory")
+    shutil.copy(src, os.path.join(gen, "hgraph", "version.h"))
+    return gen
+
+
+# SRC call names that have no GIMPLE call of the same name at -O0 (language constructs, casts, functional casts of builtin types)
+SRC_NOT_CALLS = {"static_cast", "const_cast", "reinterpret_cast", "dynamic_cast", "sizeof", "alignof", "decltype", "typeid", "noexcept", "assert",
+                 "static_assert", "bool", "int", "size_t", "double", "float", "char", "long", "unsigned", "uint64_t", "int64_t", "uint32_t", "int32_t",
+                 "uint8_t", "uint16_t", "ptrdiff_t", "uintptr_t", "intptr_t", "byte", "void", "requires", "co_await", "offsetof", "alignas",
+                 "__builtin_expect", "defined", "launder"}
+# GIR callees the SRC rules never reason about (compiler-inserted or library plumbing)
+GIR_IGNORE_BASE = re.compile(r"operator.*|~.*|__.*|_M_.*|get<.*|forward|move|addressof|__addressof|declval|construct_at|destroy_at|swap|begin|end|cbegin|cend")
+
+
+def witness_for(rel: str) -> Optional[str]:
+    """Header anchors are compiled through a tiny include-only witness TU (no logic of its own)."""
+    if not rel.endswith((".h", ".hpp")):
+        return None
+    return rel
+
+
+def thorough_gir(prop: str, run) -> Optional[dict]:
+    """Cross-check the functions analysed by `run` against GCC's CFG of their translation units."""
+    from . import rules as R
+    from . import cparse as C
+    from .cfg import NOEXCEPT_NAMES
+    repo = run.tree.root
+    if run.tree.overlay:
+        return {"skipped": "overlay tree (self-test / patch run): the compiler reads the files on disk"}
+    funcs = dict(run.functions)
+    if not funcs:
+        return {"skipped": "no function-level rule instance"}
+    by_file: Dict[str, List[Tuple[str, int, int]]] = {}
+    for key, span in funcs.items():
+        rel, qual = key.split("::", 1)
+        m = re.match(r"L(\d+)-(\d+)", span)
+        if not m:
+            continue
+        by_file.setdefault(rel, []).append((qual, int(m.group(1)), int(m.group(2))))
+    scratch = tempfile.mkdtemp(prefix=f"hgv_gir_{prop}_", dir=os.environ.get("TMPDIR") or "/tmp")
+    res = {"tus": [], "functions_checked": 0, "gir_instances": 0, "src_calls": 0, "gir_calls": 0, "g1_missing_in_gir": [], "g2_missing_in_src": [],
+           "g3_noexcept_with_eh": [], "not_instantiated": [], "blocks": 0, "eh_edges": 0}
+    try:
+        gen = make_gen(scratch)
+        jobs = []
+        for rel in sorted(by_file):
+            if rel.endswith(".cpp"):
+                jobs.append((rel, os.path.join(repo, rel), ()))
+            else:
+                w = os.path.join(scratch, re.sub(r"[^A-Za-z0-9]", "_", rel) + "_witness.cpp")
+                inc = rel.split("include/", 1)[1] if "include/" in rel else os.path.join(repo, rel)
+                with open(w, "w") as fh:
+                    fh.write(f"// include-only witness for {rel}\n#include <{inc}>\n" if "include/" in rel else f'#include "{inc}"\n')
+                jobs.append((rel, w, ("-fkeep-inline-functions",)))
+
+        def work(job):
+            rel, path, extra = job
+            try:
+                return rel, compile_dump(repo, path, scratch, gen, extra), None
+            except AnalysisError as e:
+                return rel, None, str(e)
+        with ThreadPoolExecutor(max_workers=min(8, len(jobs))) as ex:
+            dumps = list(ex.map(work, jobs))
+        for rel, dump, err in dumps:
+            if err is not None:
+                raise AnalysisError("compile-failed", err)
+            absf = os.path.join(repo, rel)
+            gfs = parse_dump(dump, {absf})
+            os.remove(dump)
+            res["tus"].append(rel)
+            fi = run.tree.file(rel)
+            for qual, a, b in by_file[rel]:
+                fds = [f for f in fi.funcs if f.qual == qual and f.line == a]
+                if not fds:
+                    continue
+                fa = R.parse(run, fds[0], strict=False)
+                src_calls: Dict[str, int] = {}
+                for c in R.calls(fa):
+                    nm = R.callee_name(c)
+                    if nm:
+                        src_calls[nm] = src_calls.get(nm, 0) + 1
+                inst = [g for g in gfs if any(f == absf and a <= l <= b for f, l in g.lines)]
+                # keep instances that live inside the extent (the function itself, its lambdas, its guard instantiations)
+                gir_calls: Dict[str, GCall] = {}
+                gir_bases: Set[str] = set()
+                n_inst = 0
+                for g in inst:
+                    inside = [c for c in g.calls if c.file == absf and a <= c.line <= b]
+                    if not inside:
+                        continue
+                    n_inst += 1
+                    res["blocks"] += g.blocks
+                    res["eh_edges"] += g.eh_edges
+                    for c in inside:
+                        gir_bases.add(c.base.lstrip("*"))
+                        gir_calls.setdefault(c.base.lstrip("*"), c)
+                        if c.base in NOEXCEPT_NAMES and c.eh:
+                            res["g3_noexcept_with_eh"].append(f"{rel}:{c.line}: {c.callee} is on the SRC non-throwing list but GCC gives its block an EH edge ({qual})")
+                res["functions_checked"] += 1
+                res["gir_instances"] += n_inst
+                res["src_calls"] += sum(src_calls.values())
+                res["gir_calls"] += len(gir_calls)
+                if n_inst == 0:
+                    res["not_instantiated"].append(f"{rel}::{qual}")
+                    continue
+                local_names = {d.name for d in R.find(fa, lambda n: isinstance(n, C.Declarator))} | {nm for _, nm in fa.params if nm}
+                for lam in R.find(fa, lambda n: isinstance(n, C.Lambda)):
+                    local_names |= {nm for _, nm in lam.params if nm}
+                for nm in sorted(src_calls):
+                    if nm in SRC_NOT_CALLS or nm in gir_bases:
+                        continue
+                    if nm in local_names:
+                        continue  # call of a local lambda / function object: GCC names it operator()
+                    res["g1_missing_in_gir"].append(f"{rel}::{qual}: SRC saw a call `{nm}` that GCC does not place in L{a}-{b}")
+                for nm, c in sorted(gir_calls.items()):
+                    if nm in src_calls or not nm or GIR_IGNORE_BASE.fullmatch(nm):
+                        continue
+                    if not c.callee.startswith(("hgraph::", "*")):
+                        continue
+                    parts = re.sub(r"<.*", "", c.callee).split("::")
+                    if len(parts) >= 2 and parts[-1] == parts[-2]:
+                        continue  # constructor: SRC models construction as a declaration / brace-init, not as a call
+                    res["g2_missing_in_src"].append(f"{rel}:{c.line}:{c.col}: GCC calls `{c.callee}` inside {qual}, the SRC parser saw no call named `{nm}`")
+    finally:
+        shutil.rmtree(scratch, ignore_errors=True)
+    return res
